@@ -24,6 +24,7 @@ def check(repo: Repo, rep, tier):
     pair_recurse(repo, rep)
     callee_by_value(repo, rep)
     align_window(repo, rep)
+    key_routing(repo, rep)
     stale_bindings(repo, rep, {n for (rel, n), w in __import__("sa.rules.common", fromlist=["rebound_globals"]).rebound_globals(repo).items() if any(x.startswith("_compare_context.py::compare_context:") for x in w)}, "e.g. a copied compare-only flag stays False while a list is aligned, so nested snapshots are committed to the elements they are merely tried against", strict_rebinders=("_compare_context.py::compare_context",))
 
 
@@ -596,3 +597,115 @@ def align_window(repo: Repo, rep):
             "align() returns more `m` than the shorter sequence has elements and SequenceAdapter.assign raises inside the comparison",
             construct="suffix-overlaps-prefix",
         )
+
+
+def _deciding_conds(cfg, target, scope_head=None):
+    """condition nodes one of whose edges can reach `target` (without passing the loop head again) while another cannot"""
+    out = []
+    if scope_head is None:
+        # loops whose body contains the target: a path that goes round such a loop is another iteration
+        blocked = [n for n in cfg.live if n.kind in ("for", "while") and target in reach(cfg, [b for b, l in n.succ if l in ("iter", "T")], blocked_nodes=[n])]
+    else:
+        blocked = [scope_head]
+    for c in cfg.conds():
+        labs = {}
+        for b, l in c.succ:
+            if l in ("T", "F"):
+                labs[l] = target in reach(cfg, [b], blocked_nodes=blocked) or b is target
+        if len(labs) == 2 and labs["T"] != labs["F"]:
+            out.append((c, "T" if labs["T"] else "F"))
+    return out
+
+
+def _cond_expr(cfg, c):
+    """the tested expression; a bare local is replaced by the expression it was computed from"""
+    e = c.ast
+    if isinstance(e, ast.Name):
+        ds = reaching_defs(cfg, c, e.id)
+        if len(ds) == 1:
+            v = def_value(ds[0], e.id)
+            if v is not None:
+                return v
+    return e
+
+
+def _role_names(e, which: str) -> bool:
+    for x in ast.walk(e):
+        if isinstance(x, ast.Name):
+            t = x.id
+            if which in t and ("old" if which == "new" else "new") not in t:
+                return True
+    return False
+
+
+def key_routing(repo: Repo, rep):
+    rep.rule(
+        "R-KEY-ROUTING",
+        "DictAdapter.assign and the keyword part of GenericCallAdapter.assign route every key by membership: a Delete is emitted only for a key of the OLD "
+        "value/source that is decided to be absent from (or default in) the NEW value - some condition that decides whether the Delete is reached reads the new "
+        "value, and it is never reached on the `key in new` side; a key is queued for insertion only on the `key not in old` side; the recursion "
+        "get_adapter(old[key], new[key]).assign() only on the `key in old` side; and each of the three routes exists.  Otherwise fix leaves stale keys, "
+        "inserts keys twice or pairs a new key with no old node (KeyError inside ==)",
+    )
+    from .C05 import facts_at
+    from .emit import emission_sites
+
+    targets = {
+        "_adapter/dict_adapter.py::DictAdapter.assign": ("Delete", "DictInsert"),
+        "_adapter/generic_call_adapter.py::GenericCallAdapter.assign": ("Delete", "CallArg"),
+    }
+    sites = emission_sites(repo)
+    for key, (del_kind, ins_kind) in targets.items():
+        f = repo.func(key)
+        cfg = cfg_of(f)
+        helpers = {key}
+        for c in body_nodes(f.node):
+            if isinstance(c, ast.Call) and isinstance(c.func, ast.Attribute) and isinstance(c.func.value, ast.Name) and c.func.value.id in ("self", "cls") and f.cls is not None:
+                g = repo.lookup_method(f.cls, c.func.attr)
+                if g is not None:
+                    helpers.add(g.key)
+        helpers |= {g.key for g in repo.pkg_funcs() if g.parent is not None and g.parent == f}
+        mine = [s for s in sites if s.func.key in helpers]
+        dels = [s for s in mine if s.kind == del_kind]
+        inss = [s for s in mine if s.kind == ins_kind]
+        if not dels:
+            rep.violation("R-KEY-ROUTING", f, f.node, f"{f.qualname} has no reachable Delete: keys that vanished from the value stay in the snapshot after fix", construct=f"{f.qualname}:no-delete")
+        if not inss:
+            rep.violation("R-KEY-ROUTING", f, f.node, f"{f.qualname} has no reachable {ins_kind}: new keys are never added by fix", construct=f"{f.qualname}:no-insert")
+        for s in dels:
+            if s.func.key != key:
+                continue  # built in a helper: judged where the helper is called (R-FLAG-LABEL)
+            facts = facts_at(cfg, s.node)
+            dec = _deciding_conds(cfg, s.node)
+            reads_new = [c for c, _ in dec if _role_names(_cond_expr(cfg, c), "new")]
+            is_positional = "LEN_DIFF" in facts
+            if "IN_NEW" in facts and "NOT_IN_NEW" not in facts:
+                rep.violation("R-KEY-ROUTING", f, s.call, f"{f.qualname} deletes a key on the path where it IS present in the new value (facts: {sorted(facts)}): fix removes entries that are still there and keeps the stale ones", construct=f"{f.qualname}:delete-in-new")
+            elif not reads_new and not is_positional:
+                rep.violation("R-KEY-ROUTING", f, s.call, f"{f.qualname}: no condition that reads the new value decides whether this Delete is reached - every key of the old value is deleted (or none)", construct=f"{f.qualname}:delete-unguarded")
+            else:
+                rep.ok("R-KEY-ROUTING", f, s.call, f"Delete decided by `{short(reads_new[0].ast, 50) if reads_new else 'the argument counts'}`")
+        # queue for insertion: appends to a local list inside a loop over the new items
+        for n in cfg.live:
+            for c in node_calls(n):
+                if isinstance(c.func, ast.Attribute) and c.func.attr == "append" and isinstance(c.func.value, ast.Name) and "insert" in c.func.value.id:
+                    facts = facts_at(cfg, n)
+                    if "IN_OLD" in facts and "NOT_IN_OLD" not in facts:
+                        rep.violation("R-KEY-ROUTING", f, c, f"{f.qualname} queues a key for insertion on the path where it IS already present in the old value: the key is written twice", construct=f"{f.qualname}:insert-in-old")
+                    elif "NOT_IN_OLD" not in facts and not [1 for cc, _ in _deciding_conds(cfg, n) if _role_names(_cond_expr(cfg, cc), "old")]:
+                        rep.violation("R-KEY-ROUTING", f, c, f"{f.qualname} queues keys for insertion without testing that they are absent from the old value", construct=f"{f.qualname}:insert-unguarded")
+                    else:
+                        rep.ok("R-KEY-ROUTING", f, c, "insertion queued only for keys absent from the old value")
+        # recursion over keys present in both
+        recs = [n for n in cfg.live for c in node_calls(n) if isinstance(c.func, ast.Attribute) and c.func.attr == "assign" and isinstance(c.func.value, ast.Call) and isinstance(c.func.value.func, ast.Attribute) and c.func.value.func.attr == "get_adapter"]
+        keyed = []
+        for n in recs:
+            facts = facts_at(cfg, n)
+            if {"IN_OLD", "NOT_IN_OLD"} & facts:
+                keyed.append(n)
+                if "NOT_IN_OLD" in facts and "IN_OLD" not in facts:
+                    rep.violation("R-KEY-ROUTING", f, n.ast, f"{f.qualname} recurses into old[key] on the path where the key is absent from the old value (KeyError inside the comparison)", construct=f"{f.qualname}:recurse-not-in-old")
+                else:
+                    rep.ok("R-KEY-ROUTING", f, n.ast, "recursion only for keys present in the old value")
+        if not keyed:
+            rep.violation("R-KEY-ROUTING", f, f.node, f"{f.qualname}: no recursion get_adapter(...).assign() on the `key in old` side of a membership test - values of keys present in both are not compared element-wise", construct=f"{f.qualname}:no-keyed-recursion")
